@@ -120,6 +120,41 @@ LANGS = {
                  decoys=['s%d: "<block name=decoy>"', "t%d: '</block>'", 'm%d: |\n  # <block name="ml">\n  # </block> x']),
 }
 
+# Enclosing constructs. CONTAINERS: (opening line, closing line, member lines) - items of a generated file may sit inside one
+# (comments between the members of a class / in a function body are comments like any other). NEST: (wrapper open, level open,
+# level close, wrapper close, indentation unit) - a construct that can be nested a hundred levels deep.
+CONTAINERS = {
+    "swift": [("class Config {", "}", ["var a = 1", "let b = 2", "func f() {}"]), ("struct S {", "}", ["var a = 1"]), ("func f() {", "}", None)],
+    "kotlin": [("class Config {", "}", ["val a = 1", "fun f() {}"]), ("fun f() {", "}", None)],
+    "java": [("class Config {", "}", ["int a = 1;", "void f() {}"]), ("interface I {", "}", ["void f();"])],
+    "c_sharp": [("class Config {", "}", ["int a = 1;", "void F() {}"]), ("namespace N {", "}", ["class C {}"])],
+    "cpp": [("namespace n {", "}", None), ("struct S {", "};", ["int a;", "void f();"]), ("void f() {", "}", None)],
+    "c": [("void f(void) {", "}", None), ("struct s {", "};", ["int a;", "char b;"])],
+    "rust": [("mod m {", "}", ["const A: u8 = 1;", "fn f() {}"]), ("fn f() {", "}", None), ("impl S {", "}", ["fn g(&self) {}"])],
+    "go": [("func f() {", "}", None), ("type T struct {", "}", ["a int", "b string"])],
+    "javascript": [("function f() {", "}", None), ("class C {", "}", ["a = 1;", "m() {}"])],
+    "typescript": [("function f() {", "}", None), ("class C {", "}", ["a = 1;", "m() {}"]), ("interface I {", "}", ["a: number;"])],
+    "tsx": [("function f() {", "}", None), ("class C {", "}", ["a = 1;", "m() {}"])],
+    "php": [("function f() {", "}", None), ("class C {", "}", ["public $a = 1;", "function m() {}"])],
+    "css": [("@media screen {", "}", None)],
+    "ruby": [("class C", "end", None), ("def f", "end", None)],
+    "bash": [("f() {", "}", None)],
+    "html": [("<section>", "</section>", None), ("<ul><li>", "</li></ul>", None)],
+    "xml": [("<group>", "</group>", None)],
+    "sql": [],
+}
+NEST = {
+    "c": ("void f(void) {", "if (1) {", "}", "}", "  "), "cpp": ("void f() {", "if (1) {", "}", "}", "  "),
+    "java": ("class A { void f() {", "if (true) {", "}", "} }", "  "), "c_sharp": ("class A { void F() {", "if (true) {", "}", "} }", "  "),
+    "kotlin": ("fun f() {", "if (true) {", "}", "}", "  "), "swift": ("func f() {", "if true {", "}", "}", "  "),
+    "go": ("func f() {", "if true {", "}", "}", "\t"), "rust": ("fn f() {", "if true {", "}", "}", "    "),
+    "javascript": ("", "if (true) {", "}", "", "  "), "typescript": ("", "if (true) {", "}", "", "  "), "tsx": ("", "if (true) {", "}", "", "  "),
+    "php": ("", "if (true) {", "}", "", "  "), "css": ("", "@media screen {", "}", "", "  "),
+    "html": ("", "<div>", "</div>", "", " "), "xml": ("", "<g>", "</g>", "", " "),
+    "ruby": ("", "if true", "end", "", "  "), "bash": ("", "if true; then", "fi", "", "  "),
+    "yaml": ("", "k:", None, "", "  "), "python": ("", "if True:", None, "", "    "),
+}
+
 # Comments that live in the *code* part of a string interpolation (or of code embedded in markup): genuine comments although an
 # ancestor node is a string / template / markup node. (text before, comment form, text after; %d = unique number)
 INTERP = {
